@@ -588,11 +588,41 @@ func dataUnit(suite uint16, tlsMode bool, depth int, part, parts int) harness.Un
 	}}
 }
 
+// manyRecordsUnit: long-lived connections - more than 256 (and more than 512) protected records in
+// each direction, written as small fragments, so that everything that counts records (sequence
+// numbers, nonces) goes past its first byte. GMSSL sessions are decoded by the independent decoder;
+// the TLS ones run against Go's crypto/tls in each role, for TLS 1.2 and TLS 1.0 (1/n-1 split).
+func manyRecordsUnit(k int) harness.Unit {
+	type sc struct {
+		name string
+		s    scenario
+	}
+	all := []sc{
+		{"GMSSL/CBC", scenario{mode: modeGM, client: cliGM, cSuites: []uint16{cbc}}},
+		{"GMSSL/GCM", scenario{mode: modeGM, client: cliGM, cSuites: []uint16{gcm}}},
+		{"TLS1.2/library-server/crypto-tls-client", scenario{mode: modeTLS, client: cliStd, vers: 0x0303}},
+		{"TLS1.0/library-server/crypto-tls-client", scenario{mode: modeTLS, client: cliStd, vers: 0x0301}},
+		{"TLS1.2/crypto-tls-server/library-client", scenario{mode: modeStdServer, client: cliTLS, vers: 0x0303}},
+		{"TLS1.0/crypto-tls-server/library-client", scenario{mode: modeStdServer, client: cliTLS, vers: 0x0301}},
+	}
+	x := all[k]
+	return harness.Unit{Name: "many-records/" + x.name, Run: func(c *harness.Ctx) {
+		var app [2]tlsk.App
+		for i := 0; i < 600; i++ {
+			app[0].Writes = append(app[0].Writes, pu.Msg(i, 7+i%5))
+			app[1].Writes = append(app[1].Writes, pu.Msg(1000+i, 3+i%7))
+		}
+		app[0].Expect = len(tlsk.Cat(app[1].Writes))
+		app[1].Expect = len(tlsk.Cat(app[0].Writes))
+		runScenario(c, x.s, app, "many-records")
+	}}
+}
+
 // Prop registers C06.
 var Prop = &harness.Prop{
 	ID:          "C06",
 	Level:       "model_checking",
-	Rule:        "configuration space enumerated as a product: server mode {GMSSL-only, auto-switch, TLS-only, Go crypto/tls server} x client {library GMSSL client, library TLS client, Go crypto/tls client} x client/server suite lists (9 each incl. ECDHE-only and mixed orders) x PreferServerCipherSuites x 5 ClientAuth policies x client certificate {absent, trusted, untrusted} x certificates static / callbacks x tickets on/off x TLS versions {default, 1.0, 1.1, 1.2} x {ECDSA, RSA} server certificate; each configuration runs real endpoints over the deterministic wire; a 60-line negotiation model predicts complete/must-fail, version and suite; both ends' ConnectionState, exported keying material, peer certificates and delivered bytes are compared; every captured GMSSL session is decoded by an independent GM/T 0024 record/PRF/Finished implementation (master secret re-derived from the pre-master secret decrypted with the reference SM2). Active reference peer: the library in each role against gmref (an independent GM/T 0024 endpoint) for both suites x GMSSL-only/auto-switch x 5 ClientAuth policies x client certificate present/absent x the peer's handshake messages cut into records of 1, 7, 100 bytes or unfragmented; both complete exactly when the policy allows, gmref verifies the library's ServerKeyExchange / CertificateVerify signatures and Finished, 3 KB / 70 KB payloads arrive intact. Data phase: all write sequences up to the depth over 8 sizes x 2 directions with reader buffers {1,7,4096}. states = distinct configurations; transitions = sessions.",
+	Rule:        "configuration space enumerated as a product: server mode {GMSSL-only, auto-switch, TLS-only, Go crypto/tls server} x client {library GMSSL client, library TLS client, Go crypto/tls client} x client/server suite lists (9 each incl. ECDHE-only and mixed orders) x PreferServerCipherSuites x 5 ClientAuth policies x client certificate {absent, trusted, untrusted} x certificates static / callbacks x tickets on/off x TLS versions {default, 1.0, 1.1, 1.2} x {ECDSA, RSA} server certificate; each configuration runs real endpoints over the deterministic wire; a 60-line negotiation model predicts complete/must-fail, version and suite; both ends' ConnectionState, exported keying material, peer certificates and delivered bytes are compared; every captured GMSSL session is decoded by an independent GM/T 0024 record/PRF/Finished implementation (master secret re-derived from the pre-master secret decrypted with the reference SM2). Active reference peer: the library in each role against gmref (an independent GM/T 0024 endpoint) for both suites x GMSSL-only/auto-switch x 5 ClientAuth policies x client certificate present/absent x the peer's handshake messages cut into records of 1, 7, 100 bytes or unfragmented; both complete exactly when the policy allows, gmref verifies the library's ServerKeyExchange / CertificateVerify signatures and Finished, 3 KB / 70 KB payloads arrive intact. Long connections: 600 small writes in each direction (more than 512 protected records per direction) for both GMSSL suites (independently decoded) and for TLS 1.2 / TLS 1.0 against crypto/tls in each role. Data phase: all write sequences up to the depth over 8 sizes x 2 directions with reader buffers {1,7,4096}. states = distinct configurations; transitions = sessions.",
 	Assumptions: []string{"Go's crypto/tls is the independent implementation for TLS 1.0-1.2 (both roles)", "gmrec (independent decoder) is built on refsm2/3/4; it covers the two ECC suites", "the ECDHE-SM2 suites are not implemented by the library: the model never predicts them as an outcome"},
 	Bounds: func(tier string) string {
 		if tier == "thorough" {
@@ -615,6 +645,9 @@ var Prop = &harness.Prop{
 		u = append(u, tlsUnit(full), crossUnit())
 		for _, lc := range []bool{true, false} {
 			u = append(u, refInteropUnit(lc, cbc), refInteropUnit(lc, gcm))
+		}
+		for k := 0; k < 6; k++ {
+			u = append(u, manyRecordsUnit(k))
 		}
 		depth, dparts := 2, 4
 		if full {
